@@ -14,7 +14,7 @@ pub struct
 //@ end
 
 impl AdjacentNode {
-//@ extract fn src/graph/adjacent_node.rs new props=C03,C20
+//@ extract fn src/graph/adjacent_node.rs new props=C03,C20 ty=AdjacentNode
 //@ rewrite
 -> Self
 //@ with
